@@ -286,7 +286,14 @@ pub fn canon_into(v: &Value, s: &mut String) {
             }
             s.push_str("] rows=[");
             for r in &g.rows {
-                canon_dict(r, s);
+                // a Null cell and a missing cell are the same thing in a row (Haystack dicts hold no nulls)
+                s.push('{');
+                for (k, v) in r.iter().filter(|(_, v)| !v.is_null()) {
+                    s.push_str(&format!("{k:?}:"));
+                    canon_into(v, s);
+                    s.push(',');
+                }
+                s.push('}');
                 s.push(',');
             }
             s.push_str("])");
